@@ -101,7 +101,7 @@ def run(ctx):
                 ctx.ob('T9.merge', nav.fq, 'base path segments (all but the last) are merged in only for a non-rooted reference path', ok,
                        loc=loc(nav, o.node))
     if n_rel == 0:
-        ctx.ob('T9.norm', nav.fq, 'relative references are resolved through from_parts', False, loc=nav.loc)
+        ctx.unknown('T9.norm', nav.fq, 'no from_parts(...) construction found on the relative-reference paths', nav.loc)
     nz = prog.func(CLS + '.normalize')
     w, paths = paths_of(prog, nz, recv=ci)
     for p in paths:
@@ -153,7 +153,7 @@ def run(ctx):
                         and st.value.func.attr == 'pop' and not st.value.args:
                     pops.append((n, st.value))
     if not pops:
-        ctx.ob('T7.unroot', rp.fq, '".." removes the previous segment under a guard', False, loc=rp.loc)
+        ctx.unknown('T7.unroot', rp.fq, 'no guarded <list>.pop() statement found', rp.loc)
     for ifn, c in pops:
         var = txt(c.func.value)
         shapes = [[]]
